@@ -88,7 +88,19 @@ fn check_typed<T: Float + FromPrimitive + Send + Sync + std::fmt::Debug>(
     if ctx.n_samples() < 4 && n == 2 && d == 3 {
         ctx.sample(json!({"call": format!("init_with_seed::<{ty}>({n},{d},{seed})"), "result": a.iter().map(|r| r.iter().map(|x| x.to_f64().unwrap()).collect::<Vec<_>>()).collect::<Vec<_>>()}));
     }
-    // the unseeded helper: shape + finite only
+    // the unseeded helper: shape + finite, and two successive calls must not replay the same draws
+    if seed == 0 && n * d >= 2 {
+        if let (Ok(u1), Ok(u2)) = (catch(|| init::<T>(n, d)), catch(|| init::<T>(n, d))) {
+            ctx.transitions(2);
+            if shape_ok(&u1, n, d) && shape_ok(&u2, n, d) && bits(&u1) == bits(&u2) {
+                ctx.violation(mk("C18:init-replays", format!("two successive calls init({n},{d}) return identical draws")));
+            }
+            let w = init::<f64>(n, d);
+            if ty == "f32" && shape_ok(&w, n, d) && w.iter().flatten().zip(u2.iter().flatten()).all(|(a, b)| (*a as f32) as f64 == b.to_f64().unwrap()) {
+                ctx.violation(mk("C18:init-replays", format!("init::<f64>({n},{d}) returns the previous init::<f32> call's draws widened")));
+            }
+        }
+    }
     if seed == 0 {
         match catch(|| init::<T>(n, d)) {
             Ok(u) => {
